@@ -1,4 +1,263 @@
+(* C11/ProofsLex.v — lexeme lemmas: each read_X consumes exactly the text write_X
+   produced and stops at the following delimiter. *)
 From Coq Require Import ZArith List Bool Lia.
 From C11 Require Import Generated Model.
 Import ListNotations.
 Open Scope Z_scope.
+
+(* what can follow a written value: end of text, a blank, or a closing bracket *)
+Definition stopc (c : Z) : bool := (c =? 32) || (c =? 93) || (c =? 125).
+Definition stops (rest : list Z) : Prop :=
+  match rest with [] => True | c :: _ => stopc c = true end.
+
+Lemma stopc_cases : forall c, stopc c = true -> c = 32 \/ c = 93 \/ c = 125.
+Proof.
+  intros c H. unfold stopc in H.
+  apply orb_true_iff in H as [H | H]; [apply orb_true_iff in H as [H | H] |];
+    apply Z.eqb_eq in H; auto.
+Qed.
+
+(* ------------------------------------------------------------- span *)
+Lemma span_app_stop : forall p a b, forallb p a = true ->
+  (match b with [] => True | c :: _ => p c = false end) ->
+  span p (a ++ b) = (a, b).
+Proof.
+  induction a as [| c a IH]; intros b Ha Hb.
+  - destruct b as [| c b]; [reflexivity |]. cbn [app span]. rewrite Hb. reflexivity.
+  - cbn [forallb] in Ha. apply andb_true_iff in Ha as [Hc Ha].
+    cbn [app span]. rewrite Hc, (IH b Ha Hb). reflexivity.
+Qed.
+
+Lemma span_spec : forall p t a b, span p t = (a, b) ->
+  t = a ++ b /\ forallb p a = true /\ (match b with [] => True | c :: _ => p c = false end).
+Proof.
+  induction t as [| c t IH]; intros a b H.
+  - cbn in H. inversion H. subst. repeat split.
+  - cbn [span] in H. destruct (p c) eqn:Hc.
+    + destruct (span p t) as [a' b'] eqn:Hs. inversion H. subst.
+      destruct (IH a' b eq_refl) as (H1 & H2 & H3). subst t.
+      repeat split; [| exact H3]. cbn. rewrite Hc, H2. reflexivity.
+    + inversion H. subst. repeat split. exact Hc.
+Qed.
+
+(* ------------------------------------------------------------- decimal integers *)
+Definition dstep (a d : Z) : Z := 10 * a + (d - 48).
+Definition dval (l : list Z) : Z := fold_left dstep l 0.
+
+Lemma parse_digits_dval : forall l, l <> [] -> forallb ascii_digit l = true -> parse_digits l = Some (dval l).
+Proof.
+  intros l Hne Hd. unfold parse_digits. destruct l as [| c l]; [congruence |].
+  rewrite Hd. reflexivity.
+Qed.
+
+Lemma digits_fuel_acc : forall n z acc, digits_fuel n z acc = digits_fuel n z [] ++ acc.
+Proof.
+  induction n as [| n IH]; intros z acc.
+  - reflexivity.
+  - cbn [digits_fuel]. destruct (z / 10 =? 0).
+    + reflexivity.
+    + rewrite (IH (z / 10) (48 + z mod 10 :: acc)), (IH (z / 10) [48 + z mod 10]).
+      rewrite <- app_assoc. reflexivity.
+Qed.
+
+Lemma digit_of_mod : forall r, 0 <= r < 10 -> ascii_digit (48 + r) = true.
+Proof. intros r H. unfold ascii_digit. apply andb_true_iff. split; apply Z.leb_le; lia. Qed.
+
+Lemma digits_fuel_spec : forall n z, 0 <= z < 2 ^ Z.of_nat (S n) ->
+  digits_fuel (S n) z [] <> [] /\ forallb ascii_digit (digits_fuel (S n) z []) = true /\
+  dval (digits_fuel (S n) z []) = z.
+Proof.
+  induction n as [| n IH]; intros z Hz.
+  - assert (z = 0 \/ z = 1) as [-> | ->] by (change (2 ^ Z.of_nat 1) with 2 in Hz; lia);
+      cbn; repeat split; congruence.
+  - remember (S n) as m. cbn [digits_fuel].
+    pose proof (Z.div_mod z 10 ltac:(lia)) as Hdm.
+    pose proof (Z.mod_pos_bound z 10 ltac:(lia)) as Hr.
+    destruct (z / 10 =? 0) eqn:Hq.
+    + apply Z.eqb_eq in Hq. repeat split; [congruence | |].
+      * cbn [forallb]. rewrite (digit_of_mod _ Hr). reflexivity.
+      * unfold dval, dstep. cbn [fold_left]. lia.
+    + apply Z.eqb_neq in Hq. rewrite digits_fuel_acc.
+      assert (Hq0 : 0 <= z / 10) by (apply Z.div_pos; lia).
+      assert (Hlt : z / 10 < 2 ^ Z.of_nat m).
+      { apply Z.div_lt_upper_bound; [lia |].
+        rewrite Nat2Z.inj_succ, Z.pow_succ_r in Hz by lia.
+        assert (0 < 2 ^ Z.of_nat m) by (apply Z.pow_pos_nonneg; lia). lia. }
+      subst m. destruct (IH (z / 10) (conj Hq0 Hlt)) as (H1 & H2 & H3).
+      repeat split.
+      * destruct (digits_fuel (S n) (z / 10) []); [congruence | discriminate].
+      * rewrite forallb_app, H2. cbn [forallb]. rewrite (digit_of_mod _ Hr). reflexivity.
+      * unfold dval in *. rewrite fold_left_app, H3. cbn [fold_left]. unfold dstep. lia.
+Qed.
+
+Lemma write_nat_spec : forall z, 0 <= z ->
+  write_nat z <> [] /\ forallb ascii_digit (write_nat z) = true /\ dval (write_nat z) = z.
+Proof.
+  intros z Hz. unfold write_nat. apply digits_fuel_spec. split; [exact Hz |].
+  rewrite Nat2Z.inj_succ, Z2Nat.id by apply Z.log2_nonneg.
+  destruct (Z.eq_dec z 0) as [-> | Hne].
+  - cbn. lia.
+  - apply Z.log2_spec. lia.
+Qed.
+
+Lemma ascii_digit_range : forall c, ascii_digit c = true -> 48 <= c <= 57.
+Proof. intros c H. unfold ascii_digit in H. apply andb_true_iff in H as [H1 H2]. apply Z.leb_le in H1, H2. lia. Qed.
+
+(* the text of an integer: optional '-', then a non-empty run of ASCII digits whose value is |z| *)
+Lemma write_int_spec : forall z,
+  exists sign ds, write_int z = sign ++ ds /\ ds <> [] /\ forallb ascii_digit ds = true /\
+                  ((sign = [] /\ 0 <= z /\ dval ds = z) \/ (sign = [45] /\ z < 0 /\ dval ds = - z)).
+Proof.
+  intros z. unfold write_int. destruct (z <? 0) eqn:Hz.
+  - apply Z.ltb_lt in Hz. destruct (write_nat_spec (- z) ltac:(lia)) as (H1 & H2 & H3).
+    exists [45], (write_nat (- z)).
+    split; [reflexivity | split; [exact H1 | split; [exact H2 | right; repeat split; auto]]].
+  - apply Z.ltb_ge in Hz. destruct (write_nat_spec z Hz) as (H1 & H2 & H3).
+    exists [], (write_nat z).
+    split; [reflexivity | split; [exact H1 | split; [exact H2 | left; repeat split; auto]]].
+Qed.
+
+Lemma parse_int_write_int : forall z, parse_int (write_int z) = Some z.
+Proof.
+  intros z. destruct (write_int_spec z) as (sign & ds & Hw & Hne & Hd & [(-> & Hz & Hv) | (-> & Hz & Hv)]);
+    rewrite Hw; cbn [app].
+  - destruct ds as [| c ds]; [congruence |]. unfold parse_int.
+    assert (Hc : (c =? 45) = false).
+    { apply Z.eqb_neq. cbn [forallb] in Hd. apply andb_true_iff in Hd as [Hc _]. apply ascii_digit_range in Hc. lia. }
+    rewrite Hc, parse_digits_dval, Hv by (auto; congruence). reflexivity.
+  - unfold parse_int. rewrite Z.eqb_refl, parse_digits_dval, Hv by auto. cbn. f_equal. lia.
+Qed.
+
+Section Lex.
+Variable E : env.
+
+(* ------------------------------------------------------------- classes on ASCII *)
+Lemma digit_numeric : forall c, ascii_digit c = true -> is_numeric E c = true.
+Proof.
+  intros c H. unfold is_numeric. pose proof (ascii_digit_range c H).
+  assert (Hc : (c <? 128) = true) by (apply Z.ltb_lt; lia). rewrite Hc. exact H.
+Qed.
+
+Lemma stopc_not_numeric : forall c, stopc c = true -> is_numeric E c = false.
+Proof. intros c H. destruct (stopc_cases c H) as [-> | [-> | ->]]; reflexivity. Qed.
+
+Lemma stopc_not_symbolic : forall c, stopc c = true -> is_symbolic E c = false.
+Proof. intros c H. destruct (stopc_cases c H) as [-> | [-> | ->]]; reflexivity. Qed.
+
+Lemma stopc_not_space_or : forall c, stopc c = true -> c = 32 \/ (is_space E c = false /\ c <> 58).
+Proof. intros c H. destruct (stopc_cases c H) as [-> | [-> | ->]]; auto; right; split; (reflexivity || lia). Qed.
+
+(* ------------------------------------------------------------- read_num's loop *)
+Lemma num_loop_stop : forall rest uf, stops rest -> num_loop E rest uf = ([], rest, uf).
+Proof.
+  intros [| c rest] uf H; [reflexivity |]. cbn in H.
+  cbn [num_loop].
+  destruct (stopc_cases c H) as [-> | [-> | ->]]; reflexivity.
+Qed.
+
+Lemma num_loop_digits : forall ds t uf, forallb ascii_digit ds = true ->
+  num_loop E (ds ++ t) uf = (let '(s, r, u) := num_loop E t uf in (ds ++ s, r, u)).
+Proof.
+  induction ds as [| c ds IH]; intros t uf H.
+  - cbn [app]. destruct (num_loop E t uf) as [[s r] u]. reflexivity.
+  - cbn [forallb] in H. apply andb_true_iff in H as [Hc H].
+    pose proof (ascii_digit_range c Hc) as Hr.
+    cbn [app num_loop].
+    assert (H46 : (c =? 46) = false) by (apply Z.eqb_neq; lia).
+    assert (H101 : (c =? 101) = false) by (apply Z.eqb_neq; lia).
+    rewrite H46, H101, (digit_numeric c Hc). cbn [negb].
+    rewrite (IH t uf H). destruct (num_loop E t uf) as [[s r] u]. reflexivity.
+Qed.
+
+Lemma num_loop_digits_stop : forall ds rest uf, forallb ascii_digit ds = true -> stops rest ->
+  num_loop E (ds ++ rest) uf = (ds, rest, uf).
+Proof.
+  intros ds rest uf Hd Hs. rewrite (num_loop_digits ds rest uf Hd), (num_loop_stop rest uf Hs), app_nil_r. reflexivity.
+Qed.
+
+Lemma num_loop_dot : forall t uf,
+  num_loop E (46 :: t) uf = (let '(s, r, u) := num_loop E t true in (46 :: s, r, u)).
+Proof. intros. reflexivity. Qed.
+
+Lemma num_loop_e_sign : forall s0 d t uf, ((s0 =? 45) || (s0 =? 43)) = true ->
+  num_loop E (101 :: s0 :: d :: t) uf = (let '(s, r, u) := num_loop E t true in (101 :: s0 :: d :: s, r, u)).
+Proof. intros s0 d t uf H. cbn [num_loop]. rewrite H. reflexivity. Qed.
+
+Lemma num_loop_e_nosign : forall s0 t uf, ((s0 =? 45) || (s0 =? 43)) = false ->
+  num_loop E (101 :: s0 :: t) uf = (let '(s, r, u) := num_loop E (s0 :: t) true in (101 :: s, r, u)).
+Proof. intros s0 t uf H. cbn [num_loop]. rewrite H. reflexivity. Qed.
+
+Lemma exp_loop : forall r2 hd rest, exp_shape r2 hd = true -> stops rest ->
+  num_loop E (r2 ++ rest) hd = (r2, rest, true).
+Proof.
+  intros r2 hd rest H Hs. destruct r2 as [| c r].
+  - cbn in H. subst hd. cbn [app]. apply num_loop_stop. exact Hs.
+  - cbn [exp_shape] in H. destruct (c =? 101) eqn:Hc; [| discriminate].
+    apply Z.eqb_eq in Hc. subst c.
+    destruct r as [| s0 r'].
+    + cbn in H. discriminate.
+    + destruct ((s0 =? 45) || (s0 =? 43)) eqn:Hsg.
+      * destruct (span ascii_digit r') as [d3 r4] eqn:Hsp.
+        destruct d3 as [| d d3']; [discriminate |]. destruct r4; [| discriminate].
+        destruct (span_spec _ _ _ _ Hsp) as (-> & Hd & _).
+        cbn [forallb] in Hd. apply andb_true_iff in Hd as [_ Hd].
+        rewrite app_nil_r. cbn [app]. rewrite (num_loop_e_sign s0 d (d3' ++ rest) hd Hsg).
+        rewrite (num_loop_digits_stop d3' rest true Hd Hs). reflexivity.
+      * destruct (span ascii_digit (s0 :: r')) as [d3 r4] eqn:Hsp.
+        destruct d3 as [| d d3']; [discriminate |]. destruct r4; [| discriminate].
+        destruct (span_spec _ _ _ _ Hsp) as (Heq & Hd & _).
+        rewrite app_nil_r in Heq. rewrite Heq.
+        assert (Hsg' : ((d =? 45) || (d =? 43)) = false).
+        { inversion Heq. subst. exact Hsg. }
+        cbn [app]. rewrite (num_loop_e_nosign d (d3' ++ rest) hd Hsg').
+        change (d :: d3' ++ rest) with ((d :: d3') ++ rest).
+        rewrite (num_loop_digits_stop (d :: d3') rest true Hd Hs). reflexivity.
+Qed.
+
+Lemma frac_loop : forall r1 rest, frac_shape r1 = true -> stops rest ->
+  num_loop E (r1 ++ rest) false = (r1, rest, true).
+Proof.
+  intros r1 rest H Hs. destruct r1 as [| c r]; [discriminate |].
+  cbn [frac_shape] in H. destruct (c =? 46) eqn:Hc.
+  - apply Z.eqb_eq in Hc. subst c.
+    destruct (span ascii_digit r) as [d2 r'] eqn:Hsp.
+    destruct d2 as [| d d2']; [discriminate |].
+    destruct (span_spec _ _ _ _ Hsp) as (-> & Hd & _).
+    cbn [app]. rewrite num_loop_dot.
+    rewrite <- app_assoc.
+    change (d :: d2' ++ r' ++ rest) with ((d :: d2') ++ r' ++ rest).
+    rewrite (num_loop_digits (d :: d2') (r' ++ rest) true Hd), (exp_loop r' true rest H Hs). reflexivity.
+  - destruct (c =? 101) eqn:Hc1.
+    + exact (exp_loop (c :: r) false rest H Hs).
+    + cbn [exp_shape] in H. rewrite Hc1 in H. discriminate.
+Qed.
+
+(* a text of the float shape: optional '-', a digit first, and read_num's loop consumes exactly it *)
+Lemma real_shape_loop : forall s, real_shape s = true ->
+  exists sign c0 body, s = sign ++ c0 :: body /\ ascii_digit c0 = true /\ (sign = [] \/ sign = [45]) /\
+    forall rest, stops rest -> num_loop E ((c0 :: body) ++ rest) false = (c0 :: body, rest, true).
+Proof.
+  intros s H. unfold real_shape in H.
+  assert (Hb : forall s1, body_shape s1 = true ->
+            exists c0 body, s1 = c0 :: body /\ ascii_digit c0 = true /\
+              forall rest, stops rest -> num_loop E ((c0 :: body) ++ rest) false = (c0 :: body, rest, true)).
+  { intros s1 H1. unfold body_shape in H1.
+    destruct (span ascii_digit s1) as [d1 r1] eqn:Hsp.
+    destruct d1 as [| c0 d1']; [discriminate |].
+    destruct (span_spec _ _ _ _ Hsp) as (-> & Hd & _).
+    exists c0, (d1' ++ r1). split; [reflexivity |]. split.
+    - cbn [forallb] in Hd. apply andb_true_iff in Hd as [Hd _]. exact Hd.
+    - intros rest Hs.
+      change ((c0 :: d1' ++ r1) ++ rest) with (((c0 :: d1') ++ r1) ++ rest).
+      rewrite <- app_assoc, (num_loop_digits (c0 :: d1') (r1 ++ rest) false Hd), (frac_loop r1 rest H1 Hs).
+      reflexivity. }
+  destruct s as [| c r].
+  - cbn in H. discriminate.
+  - destruct (c =? 45) eqn:Hc.
+    + apply Z.eqb_eq in Hc. subst c. destruct (Hb r H) as (c0 & body & -> & Hd & Hl).
+      exists [45], c0, body. repeat split; auto.
+    + destruct (Hb (c :: r) H) as (c0 & body & Heq & Hd & Hl).
+      exists [], c0, body. repeat split; auto.
+Qed.
+
+End Lex.
